@@ -2,6 +2,7 @@ package sx
 
 import (
 	"fmt"
+	"os"
 	"go/constant"
 	"go/token"
 	"go/types"
@@ -195,7 +196,23 @@ func (ex *Exec) feasible(c *smt.Term) bool {
 	if r, ok := ex.P.cacheGet(key); ok {
 		return r != smt.Unsat
 	}
-	r, _, _ := smt.Check(ex.P.QuickSolver, as, false, ex.P.QuickLimit)
+	t0 := time.Now()
+	var r smt.Result
+	if smt.Relaxable(as) {
+		// real relaxation: unsat is exact, sat over-approximates feasibility
+		r, _ = smt.CheckRelaxed(ex.P.QuickSolver, as, ex.P.QuickLimit)
+		if r == smt.Unknown && ex.P.QuickFallback {
+			r, _ = smt.PortfolioRelaxed(as, ex.P.QuickLimit*2)
+		}
+		ex.P.cachePut(key, r)
+		ex.P.noteBranch(r)
+		return r != smt.Unsat
+	}
+	r, _, _ = smt.Check(ex.P.QuickSolver, as, false, ex.P.QuickLimit)
+	if os.Getenv("GSX_DEBUG") == "slow" && time.Since(t0) > 1500*time.Millisecond {
+		sc, _ := smt.Script(as, false)
+		os.WriteFile(fmt.Sprintf("/tmp/gsx-slow-%d.smt2", time.Now().UnixNano()), []byte(sc), 0o644)
+	}
 	if r == smt.Unknown && ex.P.QuickFallback {
 		r, _, _, _ = smt.Portfolio(as, false, ex.P.QuickLimit*2, false)
 	}
